@@ -7,7 +7,7 @@ from .. import formula as F
 from ..common import std_candidates, feature_labels, fmt_vals
 from ..dense import DENSE, grid_signal, check_shape
 from ..formula import Profile, from_json
-from ..monitors import run_dt_off, run_dt_on, run_ct_off
+from ..monitors import run_dt_off, run_dt_on, run_ct_off, exc_outcome
 from ..refsem import dt, Undefined, needs_tolerance, same, step_at
 from ..runner import Lane, PASS, FAIL, DISCARD
 
@@ -18,7 +18,8 @@ RULE = ('A formula whose bounds are counted in sampling periods, a sampling peri
         'default unit, or bare next to a suffixed bound when both readings coincide; two independently drawn spellings of the same durations '
         '(also with the sampling period written in another unit and with another default unit) must give identical results offline and '
         'online, before and after pastify(), and equal R-dt computed with bound/period; a spelling may also write the same requirement text '
-        'twice (two assertions) or call parse() twice before pastify(). Lane reject: one bound is moved off the sampling '
+        'twice (two assertions) or call parse() twice before pastify(). Lanes reconfigure / reconfigure_unit: one object used under one sampling period / default unit, '
+        're-configured (set_sampling_period, spec.unit, parse, pastify, reset) and used again equals a fresh object under the second configuration. Lane reject: one bound is moved off the sampling '
         'grid: RTAMTException no later than the first evaluate/update, never a value. Lane dense: grid signals; bounds spelled with '
         'explicit units, and the whole case restated in another default unit (time stamps scaled): identical step functions. '
         'Non-trivial = the two spellings differ in >= 1 unit token and the result is not constant; distinct = distinct (text1, text2, '
@@ -647,6 +648,88 @@ def check_reconfig(case):
     return PASS(p1 != p2 and F.max_bound(f) > 0 and len(set(b)) > 1, labels)
 
 
+RECONF = [['s', [1, 's']], ['ms', [1, 'ms']], ['s', [500, 'ms']], ['ms', [500, 'us']], ['us', [1, 'us']], ['s', [1000, 'ms']], ['ms', [2, 'ms']]]
+
+
+@st.composite
+def reconfig_unit_cases(draw, tier):
+    mode = draw(st.sampled_from(['offline', 'online', 'pastified']))
+    c = draw(cases(tier, mode))
+    # the first configuration may make every bound very long (unit s at a period of 1 ms): the object is only used briefly under it
+    c['first'] = draw(st.sampled_from(RECONF + [['s', [1, 'ms']], ['ms', [1, 'us']], ['s', [100, 'ms']]]))
+    c['second'] = draw(st.sampled_from(RECONF))
+    c['first_updates'] = draw(st.integers(0, 4))
+    # set_sampling_period() is called again even if the period stays the same?
+    c['always_set_period'] = draw(st.booleans())
+    return c
+
+
+def check_reconfig_unit(case):
+    """One object (offline, online, online after pastify) is used under one default unit and sampling period; then
+    spec.unit and the sampling period are changed, the text is parsed (and pastified) again and the monitor reset: from
+    then on it behaves like a fresh object under the second configuration.  Bounds are bare numbers (default unit)."""
+    from ..monitors import build
+    f = from_json(case['formula'])
+    mode = case['mode']
+    vs = [v for v in case['vars'] if v in F.fvars(f)]
+    labels = ['mode:reconfigure-unit:' + mode] + feature_labels(f)
+    if not vs:
+        return DISCARD('no-variable', labels)
+    if mode == 'online' and F.has_future(f):
+        return DISCARD('future-without-pastify', labels)
+    h = F.horizon(f)
+    if mode == 'pastified' and h is None:
+        return DISCARD('unbounded', labels)
+    tr = {v: [float(x) for x in case['trace'][v]] for v in vs}
+    n = len(tr[vs[0]])
+    (u1, p1), (u2, p2) = case['first'], case['second']
+
+    def scale(u, p):
+        # bare bound k = k default units = k * scale sampling periods
+        return Fraction(U[u], p[0] * U[p[1]])
+    k1, k2 = scale(u1, p1), scale(u2, p2)
+    if mode == 'offline' and k1 > 2:
+        return DISCARD('first-configuration-too-long-for-offline', labels)
+    if any((Fraction(b) * k).denominator != 1 for k in (k1, k2) for s_ in F.subterms(f) if s_[0] in ('tun', 'tbin') for b in (s_[2], s_[3])):
+        return DISCARD('bound-off-grid', labels)
+    text = 'out = ' + F.show(f)
+    kind = 'dt_off' if mode == 'offline' else 'dt_on'
+
+    def tcol(u, p, m):
+        return [float(Fraction(i * p[0] * U[p[1]], U[u])) for i in range(m)]
+
+    def run(spec, u, p, m):
+        ts = tcol(u, p, m)
+        if mode == 'offline':
+            return [x[1] for x in spec.evaluate({'time': ts, **{v: list(tr[v][:m]) for v in vs}})]
+        return [spec.update(ts[i], [(v, tr[v][i]) for v in vs]) for i in range(m)]
+    try:
+        fresh = run(build(kind, text, vs, unit=u2, period=(p2[0], p2[1], 0.1), pastify=(mode == 'pastified')), u2, p2, n)
+        spec = build(kind, text, vs, unit=u1, period=(p1[0], p1[1], 0.1), pastify=(mode == 'pastified'))
+        run(spec, u1, p1, min(n, case['first_updates']) if mode != 'offline' else n)
+    except Exception as e:  # noqa
+        return DISCARD('raises(C17):' + type(e).__name__, labels)
+    desc = 'mode %s\nspec: %s\ntrace: %s\nfirst: unit %s, period %s; then spec.unit = %s, %s, parse()%s%s' % (
+        mode, text, tr, u1, p1, u2, 'set_sampling_period(%s)' % p2 if (p2 != p1 or case.get('always_set_period', True)) else 'same period', ', pastify()' if mode == 'pastified' else '', ', reset()' if mode != 'offline' else '')
+    try:
+        spec.unit = u2
+        if p2 != p1 or case.get('always_set_period', True):
+            spec.set_sampling_period(p2[0], p2[1], 0.1)
+        spec.parse()
+        if mode == 'pastified':
+            spec.pastify()
+        if mode != 'offline':
+            spec.reset()
+        again = run(spec, u2, p2, n)
+    except Exception as e:  # noqa
+        o = exc_outcome(e)
+        return FAIL('reconfigure-unit-raises:%s:%s' % (mode, o[1]), desc + '\nraised %s: %s at %s\nfresh object: %s' % (o[1], o[3], o[4], fmt_vals(fresh)), labels)
+    start = h if mode == 'pastified' else 0
+    if any(not same(x, y, False) for x, y in zip(again[start:], fresh[start:])):
+        return FAIL('reconfigure-unit-stale:' + mode, desc + '\nre-configured object: %s\nfresh object under the second configuration: %s' % (fmt_vals(again), fmt_vals(fresh)), labels)
+    return PASS((u1, p1) != (u2, p2) and F.max_bound(f) > 0 and len(set(fresh[start:])) > 1, labels)
+
+
 LANES = [
     Lane('wide', lambda tier: cases(tier, 'offline', wide=True), check, 600, 8000, std_candidates),
     Lane('wide_online', lambda tier: cases(tier, 'online', wide=True), check, 300, 4000, std_candidates),
@@ -654,6 +737,7 @@ LANES = [
     Lane('constbound', lambda tier: constbound_cases(tier), check_constbound, 1200, 20000, None),
     Lane('punctual', lambda tier: punctual_cases(tier), check_punctual, 2500, 40000, None),
     Lane('dense_twins', lambda tier: dense_twin_cases(tier), check_dense_twins, 600, 8000, None),
+    Lane('reconfigure_unit', lambda tier: reconfig_unit_cases(tier), check_reconfig_unit, 1200, 15000, std_candidates),
     Lane('reconfigure', lambda tier: reconfig_cases(tier), check_reconfig, 800, 10000, std_candidates),
     Lane('offline', lambda tier: cases(tier, 'offline'), check, 2500, 40000, std_candidates),
     Lane('online', lambda tier: cases(tier, 'online'), check, 1500, 20000, std_candidates),
